@@ -73,7 +73,14 @@ def set_dir(o, name, d, value):
 
 def build_geom(df, partial=False):
     """fresh object from a definition through the public setters"""
-    o = geom_class(df["pdim"], df["rat"])()
+    meta = df.get("meta")
+    o = geom_class(df["pdim"], df["rat"])(**({"id": meta["id"]} if meta and meta["via"] == "kwarg" else {}))
+    if meta:
+        if meta["via"] == "setter":
+            o.id = meta["id"]
+        o.name = meta["name"]
+        for k, v in meta["opt"]:
+            o.opt = [k, v]
     for d, p in enumerate(df["deg"]):
         set_dir(o, "degree", d, p)
     if df["cp"]:
@@ -116,7 +123,7 @@ def tess_view(o):
     return [[list(v.data) for v in vs], [[pos.get(id(v), 10 ** 6) for v in f.vertices] for f in o.faces]]
 
 
-def observe_geom(o):
+def observe_geom(o, tess2=True):
     """all views in a fixed order: ctrlptsw, ctrlpts, weights, ctrlpts2d, bbox, evalpts, tessellation, tessellation(2)"""
     df = read_def(o)
     ob = {"def": df, "cpw": df["cp"]}
@@ -140,7 +147,8 @@ def observe_geom(o):
             def t2():
                 o.tessellate(vertex_spacing=2)
                 return tess_view(o)
-            ob["tess2"] = call(t2)
+            if tess2:
+                ob["tess2"] = call(t2)
     return ob
 
 
@@ -474,11 +482,23 @@ def all_consistent(w, j):
     return all(consistent(read_def(w.geoms[i])) for i in w.celems[j])
 
 
-def k_eff_of(ops, upto, i):
+def effective(op, res):
+    """did this mutator really edit the object (and hence reset the tessellation)?  res = (outcome, info) of the run"""
+    if res is None:
+        return True
+    out, info = res
+    if "ok" not in out:
+        return False
+    if op[0] == "g" and op[2][0] in ("insert", "remove", "refine"):
+        return not info.get("ids_same", [False])[0]       # refused insertions / removals print a message and change nothing
+    return True
+
+
+def k_eff_of(ops, upto, i, results=None):
     """vertex spacing a plain .vertices read of geometry i refers to after ops[:upto] (explicit tessellate(vertex_spacing=k)
-    stays in force until the next edit; a deep copy inherits the tessellation of its source)"""
+    stays in force until the next effective edit; a deep copy inherits the tessellation of its source)"""
     ks = []
-    for op in ops[:upto]:
+    for n, op in enumerate(ops[:upto]):
         if op[0] == "new":
             ks.append(1)
         elif op[0] == "copy":
@@ -487,9 +507,14 @@ def k_eff_of(ops, upto, i):
             if op[2][0] == "tessellate":
                 if op[2][1] >= 1:
                     ks[op[1]] = op[2][1]
-            elif is_mutator(op):
+            elif is_mutator(op) and effective(op, results[n] if results else None):
                 ks[op[1]] = 1
     return ks[i] if i < len(ks) else 1
+
+
+def run_results(ops):
+    w = World()
+    return [apply_op(w, op) for op in ops]
 
 
 def known_alias_class(ops, upto, elems, j):
@@ -517,7 +542,7 @@ def replay(ops, upto):
     return w
 
 
-def oracle_prefix(ops, k):
+def oracle_prefix(ops, k, results=None):
     """fresh-object comparison of every object after ops[:k]; returns (message, known_class)"""
     w = replay(ops, k)
     # sharing between geometries (deep copies must be independent)
@@ -528,8 +553,23 @@ def oracle_prefix(ops, k):
             if common:
                 what = type(rs[a][common[0]]).__name__
                 return "independence: geometries %d and %d share a mutable %s object after step %d" % (a, b, what, k), False
+    last = ops[k - 1]
+    if last[0] == "copy" and "ok" in call(lambda: w.geoms[last[1]]):
+        src, cp = w.geoms[last[1]], w.geoms[-1]
+        if (cp.id, cp.name, cp.opt, cp.pdimension, cp.rational) != (src.id, src.name, src.opt, src.pdimension, src.rational):
+            return "deepcopy: id / name / opt / kind of the copy of geometry %d differ from the source after step %d" % (last[1], k), False
+        a, b = observe_geom(src, tess2=False), observe_geom(cp, tess2=False)
+        for key in ("def", "cpts", "wts", "bbox", "eval", "tess"):
+            if a.get(key) != b.get(key):
+                return "deepcopy: the copy of geometry %d made in step %d differs from its source in %s: %s vs %s" % (
+                    last[1], k, key, str(b.get(key))[:200], str(a.get(key))[:200]), False
+    if last[0] == "ccopy":
+        a, b = observe_cont(w, last[1]), observe_cont(w, len(w.conts) - 1)
+        for key in ("delta", "eval", "bbox", "tess"):
+            if a.get(key) != b.get(key) and all_consistent(w, last[1]):
+                return "deepcopy: the copy of container %d made in step %d differs from its source in %s" % (last[1], k, key), False
     for i, g in enumerate(w.geoms):
-        m = fresh_check_geom(g, k_eff_of(ops, k, i), "step %d geometry %d:" % (k, i))
+        m = fresh_check_geom(g, k_eff_of(ops, k, i, results), "step %d geometry %d:" % (k, i))
         if m:
             return m, False
     for j in range(len(w.conts)):
@@ -581,8 +621,9 @@ def shrink(ops, failing):
 
 def history_fails(ops):
     try:
+        results = run_results(ops)
         for k in range(1, len(ops) + 1):
-            m, known = oracle_prefix(ops, k)
+            m, known = oracle_prefix(ops, k, results)
             if m and not known:
                 return True
             if independence_check(ops, k):
@@ -730,22 +771,26 @@ def rand_def(rng, pd, rational):
     if rational:
         pts = compatibility.combine_ctrlpts_weights(pts, gc.weights(rng, n))
     dl = {1: [0.5, 0.25, 0.2], 2: [0.5, 0.34, 0.25], 3: [0.5, 0.34]}[pd]
-    return {"pdim": pd, "rat": rational, "deg": degs, "kv": kvs, "cp": pts, "size": sizes, "delta": [rng.choice(dl) for _ in range(pd)]}
+    df = {"pdim": pd, "rat": rational, "deg": degs, "kv": kvs, "cp": pts, "size": sizes, "delta": [rng.choice(dl) for _ in range(pd)]}
+    if rng.random() < 0.6:
+        # metadata (not part of the definition): a small non-zero id that coincides with a degree / size / the parametric dimension
+        cand = [pd, degs[0], sizes[0], degs[-1], sizes[-1], rng.randint(1, 6)]
+        df["meta"] = {"id": int(rng.choice(cand)), "via": rng.choice(["kwarg", "setter"]), "name": rng.choice(["part", "s-1", ""]),
+                      "opt": [["face_id", rng.randint(1, 6)], ["tag", "x"]][:rng.randint(0, 2)]}
+    return df
 
 
 def new_kv(rng, p, n):
+    """a valid clamped knot vector for degree p and n control points (dyadic interior knots, multiplicity <= p)"""
     nint = n - p - 1
     if nint <= 0:
         return [0.0] * (p + 1) + [1.0] * (p + 1)
-    vals = sorted(rng.choice(range(1, 16)) for _ in range(nint))
-    # multiplicity at most p
-    out = []
-    for v in vals:
-        while out.count(v) >= p:
-            v = v + 1 if v < 15 else 1
-        out.append(v)
-    out = sorted(out)
-    return [0.0] * (p + 1) + [v / 16.0 for v in out] + [1.0] * (p + 1)
+    grid = 16
+    while (grid - 1) * p < nint:
+        grid *= 2
+    pool = [v for v in range(1, grid) for _ in range(p)]
+    vals = sorted(rng.sample(pool, nint))
+    return [0.0] * (p + 1) + [v / float(grid) for v in vals] + [1.0] * (p + 1)
 
 
 def rand_gop(rng, o, allow_big=True, allow_k2=True):
@@ -878,7 +923,7 @@ def fill_reader(rng, o):
 class Hist(Family):
     name = "hist"
     imports = ("Model.Weights", "Model.Equal", "Model.Obj", "Model.ObjRun", "Run.ObjH")
-    count = {"quick": 66, "thorough": 700}
+    count = {"quick": 66, "thorough": 240}
     has_oracle = True
     timeout = 120
 
@@ -990,8 +1035,10 @@ class Hist(Family):
             KEEPALIVE[:] = []
             w = World()
             steps = []
+            results = []
             for k, op in enumerate(ops):
                 out, info = apply_op(w, op)
+                results.append((out, info))
                 fg, fc = footprint(w, op)
                 steps.append({"out": out, "info": info, "fg": fg, "fc": fc, "ngeoms": len(w.geoms), "nconts": len(w.conts),
                               "pdims": [g.pdimension for g in w.geoms]})
@@ -1006,7 +1053,7 @@ class Hist(Family):
                 cs = list(range(len(wk.conts))) if k == n else st["fc"]
                 st["gobs"] = [[i, observe_geom(wk.geoms[i])] for i in gs if i < len(wk.geoms)]
                 st["cobs"] = [[j, observe_cont(wk, j)] for j in cs if j < len(wk.conts) and all_consistent(wk, j)]
-                m, known = oracle_prefix(ops, k)
+                m, known = oracle_prefix(ops, k, results)
                 if not m:
                     m, known = independence_check(ops, k), False
                 if m:
